@@ -96,6 +96,7 @@ class Sim:
         self.died = []  # [(role, repr(exc), traceback str)]
         self.traced_files = set(traced_files)
         self.window = window  # None or callable(code) -> bool
+        self.on_preempt = None  # one-shot callable run at the next change point (see _local_trace)
         self._win_cache = {}
         # decisions
         self.n_choices = 0
@@ -112,6 +113,8 @@ class Sim:
             k = int(sched.get("k", 2))
             horizon = max(1, int(sched.get("horizon", 2000)))
             self.pct_offsets = sorted(set(self.rng.randrange(horizon) for _ in range(k)))
+            if sched.get("offsets") is not None:
+                self.pct_offsets = sorted(set(int(o) for o in sched["offsets"]))  # change points given by the workload itself
             # with sched["arm"] the change points are counted from the moment the workload calls
             # pct_arm() (e.g. when it puts a line in flight), not from the start of the run
             self.pct_points = set() if sched.get("arm") else set(self.pct_offsets)
@@ -504,6 +507,13 @@ class Sim:
         rec = self.current
         if rec is None or rec.real is not _rt.current_thread() or rec.is_driver:
             return self._local_trace
+        hook = self.on_preempt
+        if hook is not None and not self.abort_reason:
+            # a workload may tie ONE event to the first change point that comes up (eg the next chunk arrives at exactly
+            # the instant the scheduler takes the running thread off the CPU): it runs here, in the pre-empted thread's
+            # context, and typically makes another thread runnable
+            self.on_preempt = None
+            hook()
         others = [t for t in self.threads if t.state == READY and t is not rec]
         if not others and not self.abort_reason:
             return self._local_trace
